@@ -375,8 +375,11 @@ pub fn cache_async(attr: TokenStream, item: TokenStream) -> TokenStream {
                 cachelito_core::InvalidationRegistry::global().register_callback(
                     #fn_name_str,
                     move || {
+                        // Clear both under the order lock: insert() holds it across its
+                        // queue and store updates, so the two cannot be separated
+                        let mut order_write = #order_ident.lock();
                         #cache_ident.clear();
-                        #order_ident.lock().clear();
+                        order_write.clear();
                     }
                 );
             });
